@@ -5,7 +5,7 @@ import vlib, linq_ops as L
 from vlib import to_tangelo_gate, dump_tangelo_gate, np_circuit_unitary, same_up_to_phase, tangelo_dump_to_specs
 
 CLAIM = {
- "text": "Proof (Lean 4): for every gate of the supported set Gate.inverse is proved to denote the inverse operation and Circuit.inverse to undo the circuit on every state of every register size (induction over the gate list); the local rewrite rules are proved sound for all angles, targets and control lists (merging two rotations = rotation by the sum; a gate followed by its inverse = identity; rotation by 0 = identity; uncontrolled rotations are 2pi-periodic up to the phase -1 and every rotation is exactly 4pi-periodic); operations on disjoint qubit sets commute (all pairs of kinds). ALL THREE simplification passes are proved as whole passes, by loop invariants over their bookkeeping: merge_rotations (theorem mergeRotations_sound: the per-qubit last-gate table is proved right after every iteration - recorded position holds a gate on that qubit and no later gate touches it - hence every fold of a rotation into an earlier one is a merge at a distance; the output implements EXACTLY the input's operation), remove_small_rotations (removeSmall_sound, up to one sign), remove_redundant_gates (removeRedundant_sound: the per-qubit stacks are proved to list exactly the unmarked earlier gates on that qubit, most recent first, so every cancellation - also cascading ones and interleaved pairs - is a cancellation at a distance; up to one sign), and their iteration simplify (simplify_sound, any max_cycles, induction over the cycles). The float decisions of the code (Gate.__eq__ tolerance, threshold test) enter these theorems as explicit hypotheses on the decision functions (equal gates: same qubits and same operation up to sign; dropped rotations: +- identity), proved satisfied by exact equality / exact zero test (simplify_sound_exec has no float hypothesis left); trim_qubits and reindex_qubits are proved to act on the relabelled register as the original on the original one (an injective relabelling of qubit labels is constructed from the code's index table; theorems trim_sem, reindex_sem); concatenation composes, repetition iterates (add_sem, mul_sem), copy keeps the gate list; the Clifford decomposition table regenerated from /repo is proved correct row by row by kernel computation in Q(zeta_16). stack is proved structurally (stack_sem: the stacked circuit is, block after block, an injectively relabelled copy of each input). NOT proved as theorems: split, and the disjointness of the blocks of stack (tensor-product statement) - checked per generated instance, exactly, by the model (operator equality up to one global phase in Q(zeta_16)) and numerically on the real code. Tie to the code: transformation correspondence (model output gate list = Tangelo output gate list) on random circuits with correlated neighbours and edge angles.",
+ "text": "Proof (Lean 4): for every gate of the supported set Gate.inverse is proved to denote the inverse operation and Circuit.inverse to undo the circuit on every state of every register size (induction over the gate list); the local rewrite rules are proved sound for all angles, targets and control lists (merging two rotations = rotation by the sum; a gate followed by its inverse = identity; rotation by 0 = identity; uncontrolled rotations are 2pi-periodic up to the phase -1 and every rotation is exactly 4pi-periodic); operations on disjoint qubit sets commute (all pairs of kinds). ALL THREE simplification passes are proved as whole passes, by loop invariants over their bookkeeping: merge_rotations (theorem mergeRotations_sound: the per-qubit last-gate table is proved right after every iteration - recorded position holds a gate on that qubit and no later gate touches it - hence every fold of a rotation into an earlier one is a merge at a distance; the output implements EXACTLY the input's operation), remove_small_rotations (removeSmall_sound, up to one sign), remove_redundant_gates (removeRedundant_sound: the per-qubit stacks are proved to list exactly the unmarked earlier gates on that qubit, most recent first, so every cancellation - also cascading ones and interleaved pairs - is a cancellation at a distance; up to one sign), and their iteration simplify (simplify_sound, any max_cycles, induction over the cycles). The float decisions of the code (Gate.__eq__ tolerance, threshold test) enter these theorems as explicit hypotheses on the decision functions (equal gates: same qubits and same operation up to sign; dropped rotations: +- identity), proved satisfied by exact equality / exact zero test (simplify_sound_exec has no float hypothesis left); trim_qubits and reindex_qubits are proved to act on the relabelled register as the original on the original one (an injective relabelling of qubit labels is constructed from the code's index table; theorems trim_sem, reindex_sem); concatenation composes, repetition iterates (add_sem, mul_sem), copy keeps the gate list; the Clifford decomposition table regenerated from /repo is proved correct row by row by kernel computation in Q(zeta_16). stack is proved structurally (stack_sem: the stacked circuit is, block after block, an injectively relabelled copy of each input); split without trimming is proved to return parts which, executed one after the other, implement exactly the original operation and each touch only the qubits of their group (split_sem), because get_entangled_indices is proved to return pairwise disjoint groups that cover every gate (entangled_groupsOK: invariant of its absorb-and-merge loop over any gate list; split_sem_full has no hypothesis left; the executable form groupsOkB of the hypothesis is still evaluated by the driver on every generated circuit). split with trimming returns injectively relabelled copies of those parts (split_trim_sem). NOT proved as a theorem: the disjointness of the blocks of stack (tensor-product statement) - checked per generated instance, exactly, by the model (operator equality up to one global phase in Q(zeta_16)) and numerically on the real code. Tie to the code: transformation correspondence (model output gate list = Tangelo output gate list) on random circuits with correlated neighbours and edge angles.",
  "note": "Trusted: Lean kernel, axioms propext/Classical.choice/Quot.sound, table extractor, correspondence harness (sampled), numpy oracle for the search. Float decisions (== rounding, small-rotation threshold) are abstracted as parameters in the theorems and evaluated in Float by the driver; cases within 1e-9 of a discontinuity are discarded and counted. The threshold bound for dropped rotations (|theta|/2 per gate) is checked numerically only.",
  "technique": "Lean 4 semantic theorems (inverse; whole-pass soundness of merge_rotations, remove_small_rotations, remove_redundant_gates and simplify by loop invariants; relabelling for trim/reindex; periodicity; Clifford table by kernel computation) + transformation correspondence + exact per-instance operator equality in the model"}
 
@@ -226,6 +226,11 @@ def corr_case(ctx, specs, fixed, thr):
         r_mo = j["r"]
         if op["op"] == "ro_entangled" and not isinstance(r_py, str):
             ok = sorted(map(tuple, r_py)) == sorted(map(tuple, r_mo))
+            # hypothesis of the theorem split_sem, evaluated by the model on its own groups (= the code's, compared above)
+            if j.get("groups_ok") is False:
+                ctx.mismatch("the qubit groups do not cover every gate / are not pairwise disjoint (hypothesis GroupsOK of split_sem)", {"gates": specs, "n": fixed})
+                return False
+            ctx.count("groups_ok:" + str(j.get("groups_ok")))
         else:
             ok = (r_py == r_mo)
         diff = None if ok else f"result {r_py!r} vs {r_mo!r}"
